@@ -583,6 +583,29 @@ def rule_intdiv(ctx, tu):
                     if strip(kids(x)[1]).get("type", {}).get("qualType", "") in INT or r_.get("type", {}).get("qualType", "") in INT:
                         sites.append((x, r_, set(facts)))
         cxa.canon_facts(f.body, on_atom=on_atom)
+        # locals that hold a product of grid extents (const int wh = w*h;) are positive too
+        ldef, nass = {}, {}
+        for v_ in walk(f.body):
+            if v_.get("kind") == "VarDecl" and kids(v_):
+                ldef[uname(v_)] = kids(v_)[-1]
+        for s_ in cxa.all_stores(f.body):
+            if s_.base and s_.base[0] == "var":
+                nass[s_.base[1]] = nass.get(s_.base[1], 0) + 1
+
+        def positive(e, depth=0):
+            e = strip(e, casts=True)
+            k = e.get("kind")
+            if k in ("DeclRefExpr", "MemberExpr"):
+                nm = uname(e) or name_of(e)
+                if nm in POS:
+                    return True
+                return nm in ldef and not nass.get(nm) and depth < 4 and positive(ldef[nm], depth + 1)
+            if k == "BinaryOperator" and e.get("opcode") == "*":
+                return all(positive(c_, depth) for c_ in kids(e))
+            if k == "ParenExpr":
+                return positive(kids(e)[0], depth)
+            lit_ = cxa.const_int(e)
+            return lit_ is not None and lit_ > 0
         seen = set()
         for x, r_, facts in sites:
             if id(x) in seen:
@@ -596,7 +619,7 @@ def rule_intdiv(ctx, tu):
             guarded = any((a == "%s == 0" % t and pol is False) or (a == "0 < %s" % t and pol is True) or
                           (a == "%s <= 0" % t and pol is False) or (a == "0 == %s" % t and pol is False)
                           for a, pol in facts if isinstance(a, str))
-            okk = (lit is not None and lit != 0) or (only_mul and atoms and atoms <= POS) or guarded
+            okk = (lit is not None and lit != 0) or (only_mul and atoms and atoms <= POS) or positive(r_) or guarded
             n += 1
             ctx.check(okk, R, x, f.qual, text(x)[:60], "divisor: grid extents, a non-zero literal, or tested non-zero",
                       "integer division by `%s`, which can be zero and is not tested: undefined behaviour (the process is killed "
